@@ -9,7 +9,7 @@ SPECS = {"group": (GroupSpec(), "harness_group", "runner-group")}
 
 
 def run(ctx):
-    proofs_ok = ctx.check_proofs(PROP_FILES, extra_targets=["theories/Conc/Group.vo"])
+    proofs_ok = ctx.check_proofs(PROP_FILES, extra_targets=["theories/Conc/Group.vo", "theories/Conc/GroupMatcher.vo"])
     ok, out, exe = vlib.build_runner(module="harness_group", exe_name="runner-group")
     if not ok:
         ctx.violation("harness-build", "the group harness does not build against the current tree: " + out[-1500:],
